@@ -182,7 +182,7 @@ func (m *Machine) visitInstr(fr *frame, instr ssa.Instruction) continuation {
 			case *types.Pointer:
 				elemT = t.Elem().Underlying().(*types.Array).Elem()
 			}
-			if _, isBasic := elemT.Underlying().(*types.Basic); isBasic && len(base) > 0 {
+			if b, isBasic := elemT.Underlying().(*types.Basic); isBasic && b.Info()&types.IsString == 0 && len(base) > 0 {
 				fr.set(instr, &symPtr{base: base, idx: it})
 			} else {
 				k := m.concretize(it, 1<<12)
